@@ -70,9 +70,9 @@ theorem KeyedL_map_snd {cs : List (Key × Node)} (h : KeyedL cs = true) :
   obtain ⟨x, hx, rfl⟩ := List.mem_map.1 hv
   exact (KeyedL_iff cs).1 h x hx
 
-theorem newPlainList_keyed {vals : List Node} (h : ∀ v, v ∈ vals → Keyed v = true) :
-    Keyed (newPlainList vals) = true := by
-  simp only [newPlainList]
+theorem newPlainList_keyed (f : Flags) {vals : List Node} (h : ∀ v, v ∈ vals → Keyed v = true) :
+    Keyed (newPlainList f vals) = true := by
+  simp only [newPlainList, keys_propagate]
   rw [keyed_comp]
   apply CS_renum
   intro x hx
@@ -241,7 +241,7 @@ theorem premergeF_keyed : ∀ (fuel : Nat), PMKeyed (premergeF fuel)
         split at h
         · simp only [Except.ok.injEq, Prod.mk.injEq] at h
           obtain ⟨rfl, rfl, rfl⟩ := h
-          exact ⟨newPlainList_keyed hvals, intoKeyed_none⟩
+          exact ⟨newPlainList_keyed _ hvals, intoKeyed_none⟩
         · rename_i root
           split at h
           · cases h
@@ -262,7 +262,7 @@ theorem premergeF_keyed : ∀ (fuel : Nat), PMKeyed (premergeF fuel)
         split at h
         · simp only [Except.ok.injEq, Prod.mk.injEq] at h
           obtain ⟨rfl, rfl, rfl⟩ := h
-          exact ⟨newPlainList_keyed hvals, intoKeyed_none⟩
+          exact ⟨newPlainList_keyed _ hvals, intoKeyed_none⟩
         · rename_i root
           split at h
           · rename_i tf tk tcs hg
@@ -280,10 +280,10 @@ theorem premergeF_keyed : ∀ (fuel : Nat), PMKeyed (premergeF fuel)
                 exact extendList_CS tf hlf _ tcs hvals ht
             · simp only [Except.ok.injEq, Prod.mk.injEq] at h
               obtain ⟨rfl, rfl, rfl⟩ := h
-              exact ⟨newPlainList_keyed hvals, hi⟩
+              exact ⟨newPlainList_keyed _ hvals, hi⟩
           · simp only [Except.ok.injEq, Prod.mk.injEq] at h
             obtain ⟨rfl, rfl, rfl⟩ := h
-            exact ⟨newPlainList_keyed hvals, hi⟩
+            exact ⟨newPlainList_keyed _ hvals, hi⟩
       | stream =>
         simp only [premergeF] at h
         split at h
